@@ -1396,6 +1396,20 @@ class Interp(object):
         st.flags['wbegin:' + fn.name] = begin
         st.flags['hbegin:%s:%s' % (fn.name, header)] = begin
         st.flags['hfirst:%s:%s' % (fn.name, header)] = (rec[0] == 0)      # abstracted at the first arrival: the head state includes iteration 0
+        if rec[0] == 0:
+            # cumulative map {symbol of a carried slot -> its term on loop entry}, for first-iteration witnesses (State.find_model);
+            # kept across later instances of the same loop, which overwrite the per-header flags
+            et = dict(st.flags.get('entry-terms') or {})
+            for n2, bv in begin.items():
+                ev0 = entry.get(n2, orig_vals.get(n2)) if self.h.widen_on_entry else entry.get(n2)
+                bt = bv.off if isinstance(bv, PtrV) and bv.obj is not None else (bv.lin if isinstance(bv, IntV) else None)
+                e0 = ev0.off if isinstance(ev0, PtrV) and ev0.obj is not None else (ev0.lin if isinstance(ev0, IntV) else None)
+                if bt is None or e0 is None or (isinstance(bv, PtrV) and isinstance(ev0, PtrV) and bv.obj != ev0.obj):
+                    continue
+                sa = bt.single_atom()
+                if sa is not None and sa[1] == 1 and sa[2] == 0 and sa[0] not in et:
+                    et[sa[0]] = e0
+            st.flags['entry-terms'] = et
         st.flags['hentry:%s:%s' % (fn.name, header)] = dict((n2, entry.get(n2, orig_vals.get(n2)) if self.h.widen_on_entry else entry.get(n2))
                                                              for n2 in begin)
         extra = self.h.loop_candidates(self, st, fn, header, phis)
